@@ -256,7 +256,12 @@ func gen(t *rapid.T) Case {
 		if len(codes) > 0 {
 			nl := rapid.IntRange(0, min(15, len(codes))).Draw(t, "n_supplier_letters")
 			// letters in table order, as REBASE writes them, or in drawn order
-			pick := rapid.SliceOfNDistinct(rapid.IntRange(0, len(codes)-1), nl, nl, func(i int) int { return i }).Draw(t, "supplier_letters")
+			var pick []int
+			if rapid.IntRange(0, 3).Draw(t, "letters_may_repeat") == 0 {
+				pick = rapid.SliceOfN(rapid.IntRange(0, len(codes)-1), nl, nl).Draw(t, "supplier_letters_with_repeats")
+			} else {
+				pick = rapid.SliceOfNDistinct(rapid.IntRange(0, len(codes)-1), nl, nl, func(i int) int { return i }).Draw(t, "supplier_letters")
+			}
 			for _, k := range pick {
 				r.Letters += codes[k]
 			}
@@ -276,3 +281,8 @@ var sub = vk.Register(&vk.Sub[Case]{Name: "listings", Gen: gen, Check: check, No
 func TestSub_listings(t *testing.T) { vk.RunRapid(t, sub) }
 
 func TestReplay(t *testing.T) { vk.Replay(t) }
+
+// native coverage-guided fuzzing over the same generator and oracle (thorough tier)
+var subFuzz = vk.Register(&vk.Sub[Case]{Name: "listings_fuzz", Gen: gen, Check: check})
+
+func FuzzSub_listings_fuzz(f *testing.F) { vk.RunFuzz(f, subFuzz) }
